@@ -1,8 +1,8 @@
 # D34: a measurement vector that is NaN for every annotation must survive a file round trip.
 import sys, warnings, io
 warnings.filterwarnings('ignore')
-sys.path.insert(0, sys.argv[1] + '/src'); sys.path.insert(0, '/verif/harness')
-import stub_modules as stubmods; stubmods.install()
+sys.path.insert(0, sys.argv[1] + '/src'); sys.path.insert(0, '/root/scratch/probe')
+import stubmods; stubmods.install()
 import numpy as np, pydicom, highdicom as hd
 from pydicom.sr.codedict import codes
 from highdicom.ann import AnnotationGroup, Measurements, MicroscopyBulkSimpleAnnotations
